@@ -87,6 +87,10 @@ pub fn run(a: &Args) {
         st.case(e["pkt"].to_string(), true);
         out.emit(e);
     }
+    for e in framed_events("compress") {
+        st.case(e["cls"].to_string(), true);
+        out.emit(e);
+    }
     out.finish(st.into_json("compress",
         "every packet of Gen_Packet (suffix-sharing name tree, all record types) serialised with and without compression and parsed back; large-message recipes in which a name first appears at each offset 16376..16392, 20000, 32768, 49152, 60000, 65000 and is then repeated in owner, RFC 1035 RDATA and SRV positions; non-trivial = at least two entries",
         false));
